@@ -10,7 +10,7 @@ CONSTANTS
   Tails <- TailsQuick
   MinCors = 0
   MaxCors = 1
-  Tokens = {"ROWLP", "RP", "COMMA", "ARG", "DQ", "LT", "SETCALL", "LB", "BIG"}
+  Tokens = {"ROWLP", "RP", "COMMA", "ARG", "DQ", "LT", "SETCALL", "LB", "BIG", "STOREB"}
   MinToks = 1
   MaxToks = 3
   Nests <- NestsQuick
